@@ -245,4 +245,16 @@ CHECKS['C17'] = {
     'assumptions': ['printf/formatting is stubbed'],
 }
 
+CHECKS['C01'] = {
+    'jobs': {'quick': [J('c01_determinism.cpp', [], wall=200, markers=(1, 2), opts={'max_instr': 30000000})],
+             'thorough': [J('c01_determinism.cpp', [], wall=600, markers=(1, 2), opts={'max_instr': 30000000})]},
+    'bounds': {'quick': '3 programs (timers with ties, cancel and posted work; TCP transfer of 6 symbolic bytes through a rate-limited link with the first segment dropped once, packet capture on; '
+                        'UDP through a NAT with three resolver lookups), each executed twice in one process with a different simulation (other ports, clock left at 777 ms, heap garbage) in between; '
+                        'the complete traces (up to 400 records including every capture byte) are compared element-wise; all uninitialised bytes are independent fresh symbols in each run',
+               'thorough': 'same programs'},
+    'outside': ['dependence on the relative order of unrelated heap addresses beyond what the two runs of one path exhibit (object addresses are concrete in the engine)',
+                'wall-clock time, ASLR: the encoded program has no such input other than through uninitialised memory or an unmodelled external (none is reached)', 'more programs'],
+    'assumptions': ['heap addresses are concrete and differ between the two runs'],
+}
+
 NOT_APPLICABLE = {}
